@@ -140,6 +140,12 @@ type disconnectHandler struct {
 	timer          *time.Timer
 	mu             sync.Mutex
 	disconnectedAt time.Time
+	// generation identifies the current arming of the grace timer. It advances
+	// on every disconnect notification (a new grace period starts) and whenever
+	// the timer is stopped (reconnect notification, Stop). A timer callback
+	// acts only if the generation it was armed with is still the current one:
+	// Timer.Stop cannot recall a callback that has already fired.
+	generation uint64
 }
 
 func (d *disconnectHandler) handleDisconnect() {
@@ -180,29 +186,36 @@ func (d *disconnectHandler) handleDisconnect() {
 	d.disconnectedAt = time.Now()
 
 	// Start grace period timer
+	d.generation++
+	generation := d.generation
 	d.timer = time.AfterFunc(gracePeriod, func() {
-		d.handleGracePeriodExpired()
+		d.handleGracePeriodExpired(generation)
 	})
 }
 
-// handleGracePeriodExpired is called when grace period expires
-func (d *disconnectHandler) handleGracePeriodExpired() {
+// handleGracePeriodExpired is called when the grace period armed as the given
+// generation expires.
+func (d *disconnectHandler) handleGracePeriodExpired(generation uint64) {
 	// d.mu only guards the timer bookkeeping. It is released before demoting:
 	// becomeFollower takes the election mutex, which Stop holds while it takes
 	// d.mu (lock-order inversion), and OnDemote is user code that may call Stop.
 	d.mu.Lock()
+	current := generation == d.generation
 	disconnectedAt := d.disconnectedAt
 	d.mu.Unlock()
 
-	if d.election.connectionMonitor != nil {
-		if d.election.connectionMonitor.Status() != ConnectionStatusDisconnected {
-			// Reconnected, don't demote
-			log := d.election.getLogger()
-			log.Info("connection_reconnected_before_grace_period",
-				d.election.logWithContext(d.election.ctx)...,
-			)
-			return
-		}
+	// The decision rests on the notifications alone: this grace period counts
+	// if and only if neither a reconnect notification (which stops the timer)
+	// nor a newer disconnect notification (which starts a new grace period)
+	// arrived since it was armed. The monitor's status is not consulted: it is
+	// overwritten by other events (a verification that succeeds after a newer
+	// disconnect sets CONNECTED, a closed connection sets CLOSED).
+	if !current {
+		log := d.election.getLogger()
+		log.Info("connection_reconnected_before_grace_period",
+			d.election.logWithContext(d.election.ctx)...,
+		)
+		return
 	}
 
 	// Still disconnected, demote if still leader
@@ -224,6 +237,7 @@ func (d *disconnectHandler) stop() {
 	d.mu.Lock()
 	defer d.mu.Unlock()
 
+	d.generation++
 	if d.timer != nil {
 		d.timer.Stop()
 		d.timer = nil
